@@ -37,18 +37,29 @@ def job_spec(rng: random.Random, i: int, fail: bool) -> Dict[str, Any]:
         {"processor": "FloatCollectValueProbe", "context_key": f"probe_{i}"},
     ]
     if fail:
-        kind = rng.choice(["boom", "resolve", "type"])
+        kind = rng.choice(["boom", "resolve", "type", "silent"])
         pos = rng.randint(0, len(nodes))
         bad = {"boom": {"processor": "VBoomOperation"},
+               "silent": {"processor": "VSilentFail"},                       # an exception without any message
+
                "resolve": {"processor": "FloatMultiplyOperation"},          # factor nowhere
                "type": {"processor": "FloatCollectionSumOperation"}}[kind]
         nodes.insert(pos, bad)
+    if not fail and i % 5 == 4:
+        # a payload that is FALSY without being absent: an empty collection through an element-wise node and a probe
+        return {"nodes": [{"processor": "slice:FloatMultiplyOperation:FloatDataCollection", "parameters": {"factor": f1}},
+                          {"processor": "slice:FloatCollectValueProbe:FloatDataCollection", "context_key": f"probe_{i}"}],
+                "value": "empty-collection", "ctx": {f"in_{i}": float(i) + add}, "fail": False}
+    if not fail and i % 5 == 3:
+        # a context-only job: no data goes in, none comes out (NoDataType), only the context is worked on
+        return {"nodes": [{"processor": f"rename:in_{i}:out_{i}"}], "value": None, "ctx": {f"in_{i}": float(i) + add}, "fail": False}
     return {"nodes": nodes, "value": float(rng.randint(1, 20)), "ctx": {f"in_{i}": float(i)}, "fail": fail}
 
 
 def run_batch_real(params: Dict[str, Any]) -> Dict[str, Any]:
     import semantiva.execution.transport.in_memory as im
     from semantiva.context_processors import ContextType
+    from semantiva.data_types import NoDataType
     from semantiva.examples.test_utils import FloatDataType
     from semantiva.execution.executor.executor import SequentialSemantivaExecutor
     from semantiva.execution.job_queue.queue_orchestrator import QueueSemantivaOrchestrator
@@ -56,6 +67,14 @@ def run_batch_real(params: Dict[str, Any]) -> Dict[str, Any]:
     from semantiva.logger import Logger
     from ..seams import run_nodes
     from ..gamma import a_ctx, a_data
+
+    def _payload(v):
+        from semantiva.examples.test_utils import FloatDataCollection
+        if v is None:
+            return NoDataType()
+        if v == "empty-collection":
+            return FloatDataCollection.from_list([])
+        return FloatDataType(v)
 
     rng = random.Random(params["seed"])
     n, nworkers = params["njobs"], params["nworkers"]
@@ -154,8 +173,8 @@ def run_batch_real(params: Dict[str, Any]) -> Dict[str, Any]:
                     return None
                 sys.settrace(_enq_tracer)
             try:
-                fut = master.enqueue(jb["nodes"], data=FloatDataType(jb["value"]), context=ContextType(dict(jb["ctx"])),
-                                     return_future=True)
+                fut = master.enqueue(jb["nodes"], data=_payload(jb["value"]),
+                                     context=ContextType(dict(jb["ctx"])), return_future=True)
             finally:
                 if params.get("perturb") == "focus-enqueue":
                     sys.settrace(None)
@@ -184,7 +203,7 @@ def run_batch_real(params: Dict[str, Any]) -> Dict[str, Any]:
         # direct execution of every job (code vs code)
         direct = []
         for jb in jobs:
-            o = run_nodes(jb["nodes"], FloatDataType(jb["value"]), dict(jb["ctx"]))
+            o = run_nodes(jb["nodes"], _payload(jb["value"]), dict(jb["ctx"]))
             direct.append(("result", o["final"][0], o["final"][1]) if o["raised"] is None
                           else ("error", type(o["exc"]).__name__, str(o["exc"])[:160]))
         idmap = {jid: i + 1 for i, jid in enumerate(ids) if jid}
